@@ -4,6 +4,9 @@ CrossHair conditions (harness/c14_h.py): the real run_file_rename over an in-mem
 page names from a systematic menu, link names by their relation to the renamed page.
 Replay: the real runner on a real temp directory (real pathlib, rglob, rename).
 """
+import os as _os
+_os.environ["XH_NO_PATCH"] = "1"   # this process replays on the real code: never patch zorg here
+
 import importlib.util
 import os
 import sys
